@@ -374,6 +374,16 @@ impl Prop for C18 {
             }
           }
         }
+        if shard == 0 {
+          // every hour of the first two and the last two supported days (the 23:00 hour of the last day has no next day)
+          let nd = crate::model::NDAYS as i64;
+          for ix in [0i64, 1, nd - 2, nd - 1] {
+            for h in 0..24i64 {
+              out.class("hours_of_the_first_and_last_supported_days");
+              run_case(env, out, "object", &Case::ints(&[ix, h]), &ev);
+            }
+          }
+        }
         let total: u32 = env.tier.pick(8_000, 160_000);
         let hi_idx = cal().year_start[9999] as i64;
         prop_run(env, out, "object", total / nshards as u32, shard as u64, (0..hi_idx, 0i64..24).prop_map(|(i, h)| Case::ints(&[i, h])), &ev);
